@@ -143,6 +143,53 @@ pub fn check_bad_iv(c: &MC) -> CaseResult {
     pass(true, format!("{}/ivlen{}", m.name(), if c.iv.len() < 16 { "<16" } else { ">16" }))
 }
 
+/// One mode object driven through a history of calls, some of which it must refuse (IV of the wrong length, ragged or badly padded CBC input):
+/// every answer is compared with the reference, so anything a refused call leaves behind in the object shows in the calls after it.
+#[derive(Serialize, Deserialize, Hash, Debug, Clone)]
+pub struct ObjHist {
+    pub mode: u8,
+    pub key: Hex,
+    /// (decrypt?, iv, data, shape): shape 0 data as given; 1 (decrypt only) data := reference ciphertext of `data`; 2 that ciphertext without its last block;
+    /// 3 that ciphertext with its last byte flipped
+    pub ops: Vec<(bool, Hex, Hex, u8)>,
+}
+
+pub fn check_obj_hist(h: &ObjHist) -> CaseResult {
+    let m = mode_of(h.mode);
+    let key = arr16(&h.key);
+    let obj = lib_obj(m, &key)?;
+    let mut refused = 0;
+    let mut after_refusal = 0;
+    for (i, (dec, iv, data, shape)) in h.ops.iter().enumerate() {
+        let iv_ok = iv.len() == 16;
+        let mut input = data.0.clone();
+        if *dec && *shape % 4 != 0 && iv_ok {
+            let mut ct = rsm4::encrypt(m, &key, &arr16(iv), &data.0);
+            match shape % 4 {
+                2 => { let l = ct.len().saturating_sub(16); ct.truncate(l); }
+                3 => { if let Some(b) = ct.last_mut() { *b ^= 0x40; } }
+                _ => {}
+            }
+            input = ct;
+        }
+        let want: Option<Vec<u8>> = if !iv_ok { None } else if *dec { rsm4::decrypt(m, &key, &arr16(iv), &input) } else { Some(rsm4::encrypt(m, &key, &arr16(iv), &input)) };
+        let got = outcome(|| if *dec { obj.decrypt(&input, iv) } else { obj.encrypt(&input, iv) });
+        let dir = if *dec { "decrypt" } else { "encrypt" };
+        match (&want, &got) {
+            (Some(w), Outcome::Ok(g)) => ensure!(g == w, format!("entry=Sm4CipherMode::{} mode={} history outcome=wrong-output", dir, m.name()),
+                "step {} of {} on one object ({} refused calls before it): input {} bytes, library {} reference {}", i, h.ops.len(), refused, input.len(), hexs::hx(g), hexs::hx(w)),
+            (None, Outcome::Err(_)) => refused += 1,
+            (None, o) => return fail(format!("entry=Sm4CipherMode::{} mode={} history input=invalid outcome={}", dir, m.name(), o.class()), format!("step {}: iv {} bytes, input {} bytes: {}", i, iv.len(), input.len(), o.describe())),
+            (Some(_), o) => return fail(format!("entry=Sm4CipherMode::{} mode={} history input=valid outcome={}", dir, m.name(), o.class()),
+                format!("step {} of {} on one object ({} refused calls before it): iv {} bytes, input {} bytes: {}", i, h.ops.len(), refused, iv.len(), input.len(), o.describe())),
+        }
+        if want.is_some() && refused > 0 {
+            after_refusal += 1;
+        }
+    }
+    pass(after_refusal > 0, format!("{}/ops{}/{}", m.name(), (h.ops.len() / 4) * 4, if after_refusal > 0 { "valid-after-refused" } else { "no-refusal-before-valid" }))
+}
+
 fn key_iv() -> impl Strategy<Value = (Hex, Hex)> {
     let iv = prop_oneof![
         4 => prop::array::uniform16(any::<u8>()).prop_map(|a| a.to_vec()),
@@ -298,6 +345,44 @@ pub fn run(ctx: &Ctx) {
         },
         check_valid,
     );
+
+    ctx.generated(
+        "object_histories_with_refused_calls",
+        "one mode object driven through 2..12 calls (encrypt / decrypt, IVs of 16 bytes and of wrong lengths, arbitrary bytes, reference-made ciphertexts whole, without their last block, with a flipped last byte) of which some must be refused: every answer == reference, so whatever a refused call leaves behind shows in the next one",
+        ctx.tier.pick(6_000, 100_000),
+        || {
+            let iv = prop_oneof![6 => prop::array::uniform16(any::<u8>()).prop_map(|a| Hex(a.to_vec())), 1 => (prop::sample::select(vec![0usize, 1, 15, 17, 32]), any::<u64>()).prop_map(|(l, s)| Hex(expand_bytes(s, l)))];
+            let data = (prop_oneof![2 => 0..=48usize, 1 => prop::sample::select(vec![15usize, 16, 17, 31, 32, 33, 64])], any::<u64>()).prop_map(|(l, s)| Hex(expand_bytes(s, l)));
+            let op = (any::<bool>(), iv, data, 0..4u8);
+            (prop_oneof![2 => Just(0u8), 3 => 1..4u8], prop::array::uniform16(any::<u8>()), prop::collection::vec(op, 2..12)).prop_map(|(mode, key, ops)| ObjHist { mode, key: Hex(key.to_vec()), ops })
+        },
+        check_obj_hist,
+    );
+    ctx.listed("object_refused_then_valid", "for each mode: decrypt of a reference ciphertext on an object whose previous call was refused — (a) CBC bad padding, same length; (b) CBC bad padding, longer; (c) ragged CBC input; (d) IV of 15 bytes; (e) IV of 17 bytes on encrypt — then an encrypt; plus the same after two refusals", || {
+        let mut v = Vec::new();
+        for mode in 0..4u8 {
+            for k in 0..6u64 {
+                let s = 0x0b1e_0000 | (mode as u64) << 8 | k;
+                let good_iv = Hex(expand_bytes(s ^ 1, 16));
+                let bad = |kind: u64| -> (bool, Hex, Hex, u8) {
+                    match kind {
+                        0 => (true, good_iv.clone(), Hex(expand_bytes(s ^ 2, 21)), 2),       // ciphertext without its last block: bad padding for CBC
+                        1 => (true, good_iv.clone(), Hex(expand_bytes(s ^ 3, 37)), 2),
+                        2 => (true, good_iv.clone(), Hex(expand_bytes(s ^ 4, 23)), 0),       // ragged arbitrary bytes
+                        3 => (true, Hex(expand_bytes(s ^ 5, 15)), Hex(expand_bytes(s ^ 6, 16)), 0),
+                        4 => (false, Hex(expand_bytes(s ^ 7, 17)), Hex(expand_bytes(s ^ 8, 5)), 0),
+                        _ => (true, good_iv.clone(), Hex(expand_bytes(s ^ 9, 5)), 3),
+                    }
+                };
+                let valid_dec = (true, Hex(expand_bytes(s ^ 10, 16)), Hex(expand_bytes(s ^ 11, 5)), 1u8);
+                let valid_dec2 = (true, Hex(expand_bytes(s ^ 12, 16)), Hex(expand_bytes(s ^ 13, 21)), 1u8);
+                let valid_enc = (false, Hex(expand_bytes(s ^ 14, 16)), Hex(expand_bytes(s ^ 15, 33)), 0u8);
+                v.push(ObjHist { mode, key: Hex(expand_bytes(s, 16)), ops: vec![bad(k), valid_dec.clone(), valid_dec2.clone(), valid_enc.clone()] });
+                v.push(ObjHist { mode, key: Hex(expand_bytes(s, 16)), ops: vec![valid_dec2.clone(), bad(k), bad((k + 1) % 6), valid_dec.clone(), valid_enc.clone(), valid_dec2.clone()] });
+            }
+        }
+        v
+    }, check_obj_hist);
 
     ctx.exhaustive(
         "decrypt_every_length",
